@@ -19,6 +19,9 @@ D. histories (model-checking style): every ordered pair (thorough: triple) of "c
 E. pipeline: histories of steps on a real multislice, mixed-state Ptychography instance - every way of handing constraints to the pipeline
    (constraints property, model setters, reconstruct(reset False/True, num_iters 0/1, constraints given or not)); the constraints in force
    and the object / patches / probe handed to the forward model are judged against a dict reference model.
+F. factories: every public way of building a probe / object model (ast scan of the anchored files), modes 1..4, admissibility of what the instance hands out.
+G. life histories on ONE model instance: in-place optimiser steps, reset, read, to, deepcopy, save+load - after every reset the model hands out
+   what it handed out after the first initialisation and the stored initial array never changes.
 The object lattice (A) also has a mask-SHAPE dimension: 2-D masks and, for multislice objects, 3-D masks with equal / differing planes.
 """
 from __future__ import annotations
@@ -1248,6 +1251,9 @@ def run(ctx):
         "pipeline part: a request holds from the step that makes it (property, model setter or reconstruct argument) until a later request changes it; reconstruct(reset=True) puts the object constraints "
         "back to the defaults read after building, then applies the request of the same call; probe constraints not named in a reset call are not judged (the library keeps them, nothing states it); "
         "the problem is a 2-slice, 2-mode, 8x8-ROI, 2x2-scan instance from checks/_ptycho.py whose initial object has differing slices, so slice tying is never vacuous",
+        "factories: the factories of the model classes are found by an ast scan of probe_models.py / object_models.py; those not driven (ObjectDIP.*: need a network honouring the library's input validation) are listed in seam_missing; "
+        "DIP probes use a harness-defined deterministic mode-mixing network, and the raw stack is that network's output; only the `probe` / `obj` properties are judged (ProbeDIP.forward hands out the unconstrained network output by design)",
+        "life histories: the optimiser is a harness-owned deterministic in-place update of the raw parameter; histories are bounded at 4 (thorough: 5) events before the final reset ; read, at most three live instances, file round trips only in short histories",
         "float32 code: amplitude tolerance 5e-6, idempotence 1e-5 of the value scale, Gram tolerance 1e-4 of the largest mode intensity (float32 Gram-Schmidt at correlation 0.99 reaches 2e-6), intensity tolerances 1e-5",
     )
 
